@@ -140,6 +140,11 @@ func LoadContentsFromFile(ctx context.Context, tx *Transaction, fpath parser.Ide
 		return content, NewFileNotExistError(fpath)
 	}
 
+	// A SOURCE statement in a user-defined function is executed by several goroutines at a time: the file container
+	// holds one handler per path, so the file is opened, read and closed by one goroutine after another.
+	tx.viewLoadingMutex.Lock()
+	defer tx.viewLoadingMutex.Unlock()
+
 	h, err := tx.FileContainer.CreateHandlerWithoutLock(ctx, p, tx.WaitTimeout, tx.RetryDelay)
 	if err != nil {
 		return content, ConvertFileHandlerError(err, fpath)
